@@ -7,7 +7,7 @@ from .seqreplay import replay_history
 
 class C04Spec(ModelSpec):
     prop = "C04"
-    pids = ("p", "q", "r")
+    pids = ("p", "xp", "r")  # 'p' is a suffix of 'xp'
     api_probe = True
 
     def __init__(self, tier):
@@ -19,7 +19,7 @@ class C04Spec(ModelSpec):
         ops += [("store", "r", "B", None), ("tag", "r", "B"),
                 ("dii", "A", "badsize"), ("dii", "A", "badck"), ("dii", "A", "badboth"),
                 ("dii", "B", "badsize"), ("dii", "B", "badck"), ("dii", "A", "badck:sha224+size"),
-                ("store", "p", "A", "badck:sha256"), ("store", "q", "A", "badsize"), ("store", "q", "A", "badck:sha3_256"),
+                ("store", "p", "A", "badck:sha256"), ("store", "xp", "A", "badsize"), ("store", "xp", "A", "badck:sha3_256"),
                 ("store_nopid", "A"),
                 # the same digest spelled in upper case is a different cid string: it must not alias the object
                 ("tag", "r", "A^"), ("dii", "A^", "badsize"),
